@@ -57,6 +57,8 @@ def _worker(job):
       for ob in r.obligations:
         d = dict(key=ob.key, stem=ob.stem, kind=ob.kind, status=ob.status, solver=ob.solver, time=round(ob.time, 4),
                  detail=ob.detail)
+        if getattr(ob, 'ce', None):
+          d['ce'] = ob.ce
         if ob.status != 'unsat':
           d['output'] = ob.output[:1500]
           try:
@@ -212,11 +214,22 @@ def run_property(pid, cfg, tier, seed, jobs, update_ledger, t0):
       kf = [k for k in known_open if k.get('function') == tgt and f"{tgt}::{k.get('violated')}" == stem]
       if kf and nat_fail:
         continue
+      confirmed = [o for o in bad if o.get('ce') and o['ce'][0] == 'confirmed']
+      if confirmed:
+        o = confirmed[0]
+        f = o['ce'][1]
+        if is_known(tgt, f['violated'], f['inputs']):
+          kf_lines.append(f"KNOWN-FINDING: property={pid} {is_known(tgt, f['violated'], f['inputs'])['what']}")
+          continue
+        path = write_replay(o['key'] + 'ce', dict(property=pid, kind='failing-input', source='solver counter-model replayed on the real code',
+                                                 function=tgt, obligation=o['key'], inputs=f['inputs'], observed=f['observed'], modules=cfg['modules']))
+        violations.append((stem, path, ''))
+        continue
       o = bad[0]
       in_ledger = stem in ledger and ledger[stem]['discharged'] == ledger[stem]['count']
       if in_ledger or o['status'] == 'sat':
         path = write_replay(o['key'], dict(property=pid, kind='failed-obligation', obligation=o['key'], function=tgt,
-                                           status=o['status'], verifier_output=o.get('output'), smt2_head=o.get('smt2_head'),
+                                           status=o['status'], verifier_output=o.get('output'), counter_model_replay=o.get('ce'), smt2_head=o.get('smt2_head'),
                                            note='obligation discharged on the unchanged tree (ledger) and not discharged now; '
                                                 'bounded native search found no failing input',
                                            native_cases=(nat or {}).get('cases')))
